@@ -334,6 +334,9 @@ pub fn menu(seed: &Seed, with_unsealed: bool) -> Vec<Mutation> {
                     }
                 } else if p.kind == 0 {
                     m.push(Mutation::Logical { off: po + 6, bytes: vec![7], what: format!("packet {si}.{pi} index level <- 7") });
+                    for v in [0u16, 1, 2048, 65535] {
+                        m.push(Mutation::Logical { off: po + 4, bytes: v.to_le_bytes().to_vec(), what: format!("packet {si}.{pi} index entry count <- {v}") });
+                    }
                     m.push(Mutation::Logical { off: po + 7, bytes: vec![0xFF; 9], what: format!("packet {si}.{pi} index reserved <- 0xFF") });
                 }
             }
@@ -520,6 +523,16 @@ pub fn menu(seed: &Seed, with_unsealed: bool) -> Vec<Mutation> {
                         }
                     }
                 }
+            }
+        }
+        // fragmentation bomb: the text of one scalar element split into 300000 pieces by comments
+        if with_unsealed {
+            if let Some(g) = xml.find("<guid type=\"String\">").map(|p| p + 20) {
+                let mut doc = String::with_capacity(xml.len() + 8 * 300_000);
+                doc.push_str(&xml[..g]);
+                doc.push_str(&"x<!---->".repeat(300_000));
+                doc.push_str(&xml[g..]);
+                m.push(Mutation::XmlRaw { bytes: doc.into_bytes(), what: "text of the first guid element split into 300000 pieces by comments".into() });
             }
         }
         // repetition bombs: 2 MiB of one unterminated / unbalanced token (anything that rescans the
